@@ -480,6 +480,9 @@ def formula_leaves(e):
             rec(x.orelse)
         elif isinstance(x, ast.Constant):
             pass
+        elif isinstance(x, (ast.Tuple, ast.List, ast.Set)):
+            for y in x.elts:
+                rec(y)
         else:
             t = norm(x)
             if t not in out:
@@ -522,6 +525,8 @@ def formula_eval(e, env):
         return formula_eval(e.body, env) if formula_eval(e.test, env) else formula_eval(e.orelse, env)
     if isinstance(e, ast.Constant):
         return e.value
+    if isinstance(e, (ast.Tuple, ast.List, ast.Set)) and norm(e) not in env:
+        return tuple(formula_eval(x, env) for x in e.elts)
     return env[norm(e)]
 
 
@@ -550,3 +555,37 @@ def resolve_locals(f, expr, depth=5):
                 return S(self.d - 1).visit(copy.deepcopy(vals[node.id]))
             return node
     return S(depth).visit(copy.deepcopy(expr))
+
+
+def return_expression(func):
+    """The value of a function whose body only decides what to return, as one
+    expression: `return E`, or a sequence of `if T: return X` (with or without
+    else) ending in a return, folded into nested conditional expressions.
+    None if the body does anything else."""
+    body = [s for s in func.node.body if not (isinstance(s, ast.Expr) and isinstance(s.value, ast.Constant))]
+
+    def fold(stmts):
+        if not stmts:
+            return None
+        s, rest = stmts[0], stmts[1:]
+        if isinstance(s, ast.Return):
+            return s.value if s.value is not None else ast.Constant(value=None)
+        if isinstance(s, ast.If):
+            a = fold(s.body + ([] if _always_returns(s.body) else rest))
+            b = fold((s.orelse or []) + ([] if (s.orelse and _always_returns(s.orelse)) else rest))
+            if a is None or b is None:
+                return None
+            return ast.copy_location(ast.IfExp(test=s.test, body=a, orelse=b), s)
+        return None
+    return fold(body)
+
+
+def _always_returns(stmts):
+    if not stmts:
+        return False
+    s = stmts[-1]
+    if isinstance(s, ast.Return):
+        return True
+    if isinstance(s, ast.If):
+        return _always_returns(s.body) and bool(s.orelse) and _always_returns(s.orelse)
+    return False
